@@ -76,7 +76,9 @@ def machine : Machine := ⟨S, init, step⟩
 
 def clause : List String → String
   | "call" :: _ :: _ :: fn :: _ =>
-    if fn = "batchExecute" ∨ robotFns.contains fn then "robot_only"
+    -- other spellings of a robot-only name are attributed to the same clause
+    let lf := String.ofList (match fn.toList with | c :: cs => c.toLower :: cs | [] => [])
+    if fn = "batchExecute" ∨ robotFns.contains fn ∨ lf = "batchExecute" ∨ robotFns.contains lf then "robot_only"
     else "identity_or_disabled_gate"
   | "init" :: _ => "init_admin_ou_only"
   | _ => "setup"
